@@ -636,7 +636,12 @@ def search(ctx):
                 ctx.count("search:initial-budget-exceeded")
                 continue
             except IndexError:
-                ctx.count("search:initial-no-candidates")
+                ctx.count("search:initial-no-candidates")   # random.choice([]) on an infeasible configuration
+                continue
+            except Exception as ex:  # noqa
+                ctx.violation("%dx%d:initial:raises-%s" % (h, w, vlib.err_name(ex)),
+                              "initial() raised while walking towards the bounds (an intermediate value was not a partition into connected blocks)",
+                              {"cfg": list(cfg), "error": vlib.err_name(ex), "where": "initial"})
                 continue
             ctx.prop_case("initial", (cfg, norm_blocks(cur)))
             why = inv_failure(cfg, cur)
@@ -647,8 +652,14 @@ def search(ctx):
             steps = nsteps if walks % 4 == 0 else 40
             for t in range(steps):
                 br.budget = 100000
-                with patched(br):
-                    cands = builder.candidates(cur)
+                try:
+                    with patched(br):
+                        cands = builder.candidates(cur)
+                except Exception as ex:  # noqa
+                    ctx.violation("%dx%d:candidates:raises-%s" % (h, w, vlib.err_name(ex)),
+                                  "candidates() raised on a value that satisfies the invariant",
+                                  {"cfg": list(cfg), "value": copy.deepcopy(cur), "error": vlib.err_name(ex), "where": "walk step %d" % t})
+                    break
                 if not cands:
                     break
                 # every proposed update must keep the invariant (sampled when there are many)
@@ -681,7 +692,9 @@ def replay(ctx, rp):
     cfg = tuple(v["cfg"])
     tup = lambda bs: [[tuple(c) for c in b] for b in bs]  # noqa
     if "update" not in v:
-        return 1 if inv_failure(cfg, tup(v["result"])) else 0
+        if "result" in v:
+            return 1 if inv_failure(cfg, tup(v["result"])) else 0
+        return 1
     builder = mk_builder(cfg)
     cur = tup(v["value"])
     u = (list(v["update"][0]), tup(v["update"][1]))
